@@ -191,6 +191,13 @@ theorem rejects_too_few_macro_args (cfg : Cfg) (imported : List Macro) (f : File
   obtain ⟨l, c, n, k, m, ho, hm, ht⟩ := h
   exact rejects_of_collect cfg imported f l c _ ho (by simp [collectS, hm, ht])
 
+/-- the arity rule in the usual words: a call that passes fewer arguments than the macro has (pairwise different)
+parameters is rejected — whatever the body of the macro is, whether or not it uses the parameter that gets no value -/
+theorem rejects_fewer_args_than_params (cfg : Cfg) (imported : List Macro) (f : File) (l c : Bool) (n : String) (k : Nat) (m : Macro)
+    (ho : OccursIn f l c (.macroCall n k)) (hm : findMacro (imported ++ f.macros) n = some m) (hn : m.vars.Nodup)
+    (hk : k < m.vars.length) : ∃ e, checkLocal cfg imported f false = .error e ∧ e ∈ documented :=
+  rejects_too_few_macro_args cfg imported f ⟨l, c, n, k, m, ho, hm, tooFew_of_lt m.vars k hk hn⟩
+
 /-- macro `a` of the file calls `b` -/
 def Calls (ms : List Macro) (a b : String) : Prop := (∃ m ∈ ms, m.name = a) ∧ b ∈ callees ms a
 
@@ -504,6 +511,11 @@ def exTooFew : File := { macros := [⟨"m", ["$a", "$b"], one (.op false)⟩], r
 example : HasTooFewArgs [] exTooFew :=
   ⟨false, false, "m", 1, ⟨"m", ["$a", "$b"], one (.op false)⟩, ⟨one (.macroCall "m" 1), by decide, by decide⟩, by decide, by decide⟩
 example : checkLocal {} [] exTooFew false = .error .valueError := by decide
+-- the parameter that gets no value is not used in the body (nor anywhere): rejected all the same
+def exTooFewUnused : File :=
+  { macros := [⟨"m", ["$a", "$b"], one (.op false)⟩, ⟨"outer", ["$x", "$y"], one (.macroCall "m" 2)⟩]
+    routines := [rt (one (.macroCall "outer" 1))] }
+example : checkLocal {} [] exTooFewUnused false = .error .valueError := by decide
 def exCycle : File := { macros := [⟨"a", [], one (.macroCall "b" 0)⟩, ⟨"b", [], one (.macroCall "a" 0)⟩], routines := [rt (one (.op false))] }
 example : HasMacroCycle exCycle := by
   refine ⟨["a", "b"], by simp, ?_⟩
